@@ -22,3 +22,19 @@ Theorem C02_walk_is_pruned_preorder :
   forall ls mind maxd root, walk mind maxd ls root = walk_spec mind maxd ls root.
 Proof. exact walk_refines. Qed.
 Print Assumptions C02_walk_is_pruned_preorder.
+
+(* the statement at the level of what the walk yields: for every tree, given pruning soundness of the component programs
+   (whatever the complete program accepts, every component program accepts at its own position - what the tie and the oracle
+   check of the code's programs), the walk yields exactly the entries the complete program matches (that have at least as
+   many components as there are component programs), in pre-order, each once; pruning never loses one *)
+Theorem C02_walk_yields_exactly_the_matches :
+  forall prefix progs complete,
+    (forall rel, complete (join_path rel) = true ->
+       forall i c pr, nth_error rel i = Some c -> nth_error progs i = Some pr -> pr c = true) ->
+    forall root,
+      yields (walk 0 None [glob_layer prefix progs complete] root) =
+      filter (keeps prefix progs complete) (all_entries [] root).
+Proof.
+  intros prefix progs complete H root. rewrite walk_refines. exact (glob_walk_yields prefix progs complete H root 0 []).
+Qed.
+Print Assumptions C02_walk_yields_exactly_the_matches.
